@@ -115,6 +115,17 @@ func vRemoveHopByHop(h http.Header) {
 	}
 }
 
+func vConnectionHasToken(h http.Header, token string) bool {
+	for _, f := range h["Connection"] {
+		for _, name := range strings.Split(f, ",") {
+			if strings.EqualFold(strings.TrimSpace(name), token) {
+				return true
+			}
+		}
+	}
+	return false
+}
+
 // vDispatch emulates the proxy port's router (server.go registerRoutes):
 // GET /_piko/v1/tcp/:endpointID -> proxyTCPRoute, anything else -> proxyHTTPRoute,
 // with the auth middleware's token (if any) already stored in the context.
@@ -158,7 +169,18 @@ func vStubReverseProxy(p *httputil.ReverseProxy, rw http.ResponseWriter, req *ht
 	u := *req.URL
 	out.URL = &u
 	p.Director(out)
+	// reverseproxy.go: the upgrade type is read before the hop-by-hop headers
+	// are removed (it needs the token "Upgrade" in some Connection line) and
+	// is put back afterwards
+	upType := ""
+	if vConnectionHasToken(out.Header, "upgrade") {
+		upType = out.Header.Get("Upgrade")
+	}
 	vRemoveHopByHop(out.Header)
+	if upType != "" {
+		out.Header.Set("Connection", "Upgrade")
+		out.Header.Set("Upgrade", upType)
+	}
 	vCaptured = append(vCaptured, &vOutbound{in: req, out: out})
 	tr := p.Transport.(*http.Transport)
 	conn, err := tr.DialContext(out.Context(), "tcp", out.URL.Host)
